@@ -120,6 +120,10 @@ def m_array(I, e, args, kws):
     if lo is not None and lo.tag("product_of") is not None:
         out.shape = Shape([None, as_dim(lo.tag("product_of")[1])])
         out.tags["ndim"] = 2
+        lits = lo.tag("product_of")[0]
+        if lits is not None and sorted(float(c) for c in lits) == [0.0, 1.0]:
+            out.tags["poly"] = {("corner",): 1}       # entries are the corner indicator t ∈ {0, 1}
+            out.tags["corner_array"] = True
     rep = x.tag("n_repeat")
     if rep is not None and el is not None:
         d = as_dim(rep)
@@ -560,6 +564,7 @@ def _reduce(I, e, args, kws, unit_of=lambda x: x.unit, sign_of=lambda x: x.sign,
         keep(out, src, *LIN_TAGS)
     out.tags["reduced_axis"] = ax
     out.tags["reduced_from"] = src.shape
+    out.tags["keepdims"] = bool(keep_)
     _xsample(I, e, out, src.shape, ax)
     return out
 
@@ -1140,6 +1145,9 @@ def m_dirichlet_rvs(I, e, args, kws):
             if k is None and rep.tag("dimexpr"):
                 k = None
     out.shape = Shape([as_dim(size) if size is not None else None, k])
+    if rs is None or (rs.known and rs.const is None):
+        out.data |= {f"entropy@{I.fr.fn.module.relpath}:{e.lineno}"}       # scipy falls back to numpy's global RandomState
+        out.tags["unseeded"] = True
     I.emit("random_draw", e, gen=rs, method="dirichlet.rvs", args=args, kws=kws, result=out, via="random_state")
     return out
 
